@@ -224,6 +224,13 @@ func (l *List) M__setitem__(key, value Object) (Object, error) {
 			return nil, err
 		}
 		if step == 1 {
+			// Reading value may have changed the length of this list
+			if start > len(l.Items) {
+				start = len(l.Items)
+			}
+			if stop > len(l.Items) {
+				stop = len(l.Items)
+			}
 			if stop < start {
 				stop = start
 			}
